@@ -216,6 +216,45 @@ theorem within_self_Y_utc (cd : CandleDuration) (t : Int) (hp : Parsed cd) (h : 
     rw [this]; omega
 
 
+/-! ## more about `Time.Truncate` (used by C22) -/
+
+/-- an aligned point at or before `t` is at or before `t`'s window start -/
+theorem le_goTruncate_of_aligned (s t d : Int) (hd : 0 < d) (hs : (s - goZero) % d = 0) (hst : s ≤ t) :
+    s ≤ goTruncate t d := by
+  apply Classical.byContradiction
+  intro hlt
+  have hlt : goTruncate t d < s := by omega
+  have al := goTruncate_aligned t d hd
+  have b := lt_goTruncate_add t d hd
+  have hdm : (s - goTruncate t d) % d = 0 := by
+    have e : s - goTruncate t d = (s - goZero) - (goTruncate t d - goZero) := by omega
+    rw [e, Int.sub_emod, hs, al]; simp
+  have := Int.emod_eq_of_lt (show 0 ≤ s - goTruncate t d by omega) (show s - goTruncate t d < d by omega)
+  omega
+
+theorem goTruncate_mono (a b d : Int) (hab : a ≤ b) : goTruncate a d ≤ goTruncate b d := by
+  by_cases hd : 0 < d
+  · exact le_goTruncate_of_aligned _ _ _ hd (goTruncate_aligned a d hd) (Int.le_trans (goTruncate_le a d) hab)
+  · have : d ≤ 0 := by omega
+    simp [goTruncate, this, hab]
+
+/-- window starts are whole seconds when the duration is -/
+theorem goTruncate_whole_second (t d : Int) (hd : 0 < d) (h : d % 1000000000 = 0) :
+    goTruncate t d % 1000000000 = 0 := by
+  have al := goTruncate_aligned t d hd
+  have h1 : (goTruncate t d - goZero) % 1000000000 = 0 := by
+    have := Int.emod_emod_of_dvd (goTruncate t d - goZero) (Int.dvd_of_emod_eq_zero h)
+    rw [al] at this; simpa using this.symm
+  unfold goZero at h1
+  omega
+
+/-- in UTC a `D` window is the 24-hour block of `Time.Truncate` -/
+theorem utc_day_is_block (t : Int) : dayStart utc (localDays utc t) = goTruncate t day := by
+  rw [utc_dayStart, utc_localDays]
+  unfold goTruncate goZero day Mkts.Extracted.utils_Day
+  simp only [show ¬ ((86400000000000 : Int) ≤ 0) by decide, if_false]
+  omega
+
 /-! ## tables -/
 
 /-- every entry of `Timeframes` parses back to its own duration -/
